@@ -504,6 +504,13 @@ class Machine(object):
                 except Exception:
                     pass
                 SuperOperator()      # an empty superoperator that never receives data
+                from quantarhei.qm import TransitionDipoleMoment
+                for bad in (numpy.zeros((3, 3)), numpy.arange(27.0).reshape(3, 3, 3)):
+                    try:
+                        TransitionDipoleMoment(data=bad)
+                        ctx.fail("badctor-accepted", "tdm")
+                    except Exception:
+                        pass
         elif s == "raise":
             if len(self.T) > 1:
                 raise Abort(stm["levels"])
